@@ -714,6 +714,25 @@ get_slotted_function_def(Object *obj, Function *func, FunctionRemap *remap,
 }
 
 /**
+ * Returns the C++ name of the method that gives the number of elements of a
+ * class that implements the sequence protocol: size() or __len__().
+ */
+static std::string
+get_size_method_name(InterfaceMaker::Object *obj) {
+  for (InterfaceMaker::Function *func : obj->_methods) {
+    if (func == nullptr) {
+      continue;
+    }
+    for (FunctionRemap *remap : func->_remaps) {
+      if ((remap->_flags & FunctionRemap::F_size) != 0) {
+        return func->_ifunc.get_name();
+      }
+    }
+  }
+  return "size";
+}
+
+/**
  * Determines whether the slot occurs in the map of slotted functions, and if
  * so, writes out a pointer to its wrapper.  If not, writes out def (usually
  * 0).
@@ -2416,7 +2435,7 @@ write_module_class(ostream &out, Object *obj) {
           // *need* to raise IndexError if we're out of bounds.  We have to
           // assume the bounds are 0 .. this->size() (this is the same
           // assumption that Python makes).
-          out << "  if (index < 0 || index >= (Py_ssize_t) local_this->size()) {\n";
+          out << "  if (index < 0 || index >= (Py_ssize_t) local_this->" << get_size_method_name(obj) << "()) {\n";
           out << "#ifdef NDEBUG\n";
           out << "    PyErr_SetString(PyExc_IndexError, \"index out of range\");\n";
           out << "#else\n";
@@ -2447,7 +2466,7 @@ write_module_class(ostream &out, Object *obj) {
           out << "    return -1;\n";
           out << "  }\n\n";
 
-          out << "  if (index < 0 || index >= (Py_ssize_t) local_this->size()) {\n";
+          out << "  if (index < 0 || index >= (Py_ssize_t) local_this->" << get_size_method_name(obj) << "()) {\n";
           out << "#ifdef NDEBUG\n";
           out << "    PyErr_SetString(PyExc_IndexError, \"index out of range\");\n";
           out << "#else\n";
